@@ -99,9 +99,14 @@ func discharge(u *Universe, o *Obligation, dir string, timeoutS int, confirm boo
 	hasNL := strings.Contains(script, "(* ") || strings.Contains(script, "(/ ")
 	hasSidx := strings.Contains(script, "(sidx ")
 	if !o.Cover {
+		hasUserPats := strings.Contains(script, ":pattern ((") && strings.Contains(script, "((q_")
 		add := func(abs, usi bool, tag string) {
+			np := strings.Contains(tag, "np")
+			if np && !hasUserPats {
+				return
+			}
 			scriptMu.Lock()
-			txt := u.ScriptVariant(o.Assumptions, o.Goal, abs, usi)
+			txt := u.ScriptVariant3(o.Assumptions, o.Goal, abs, usi, np)
 			scriptMu.Unlock()
 			if abs && !strings.Contains(txt, "u_mul_") && !strings.Contains(txt, "u_div_") {
 				return
@@ -118,6 +123,14 @@ func discharge(u *Universe, o *Obligation, dir string, timeoutS int, confirm boo
 		}
 		if hasNL && hasSidx {
 			add(true, true, "abs-usi")
+		}
+		// the same encodings with the contract quantifiers' explicit triggers removed (solver-chosen triggers)
+		add(false, false, "np")
+		if hasSidx {
+			add(false, true, "usi-np")
+		}
+		if hasNL {
+			add(true, hasSidx, "abs-np")
 		}
 	}
 	var r solveResult
